@@ -561,10 +561,10 @@ def check_c26(rep, thorough):
              "functions of R, centres, derivative of H(k)) and H(k); plus seeded random recorded calls (also SystemInterpolatorSOC) validated by TLC")
     rep.assume("all amplitudes are multiples of den, so every interpolated value is an integer (named precondition InterpExact); "
                "SystemInterpolatorSOC is exercised through recorded calls and their H(k) only (its up/down sub-systems are not inspected)")
-    cfgs = [("c26_interp", dict(OPS='{"Interpolate"}', NWS="{1, 2}" if thorough else "{2}", SC=2, DEN=2, AEXT=1, WITHX="{FALSE, TRUE}", MAXHOPS=1 if thorough else 0,
-                                NEPS=1, NCEN=2, KDIRS=2 if thorough else 1))]
+    cfgs = [("c26_interp", dict(OPS='{"Interpolate"}', NWS="{1, 2}" if thorough else "{2}", SC=2, DEN=2, AEXT=0 if thorough else 1, WITHX="{FALSE, TRUE}",
+                                MAXHOPS=1 if thorough else 0, NEPS=1, NCEN=2, KDIRS=2 if thorough else 1))]
     if thorough:
-        cfgs.append(("c26_interp_quarters", dict(OPS='{"Interpolate"}', NWS="{2}", SC=4, DEN=4, WITHX="{FALSE, TRUE}", MAXHOPS=1, NEPS=1, NCEN=1, KDIRS=1)))
+        cfgs.append(("c26_interp_quarters", dict(OPS='{"Interpolate"}', NWS="{2}", SC=4, DEN=4, AEXT=1, WITHX="{FALSE, TRUE}", MAXHOPS=1, NEPS=1, NCEN=1, KDIRS=1)))
         cfgs.append(("c26_interp_chain", dict(OPS='{"Interpolate", "Reorder"}', MAXLEN=2, NWS="{2}", SC=2, DEN=2, WITHX="{FALSE}", MAXHOPS=1, MAXHOPS2=0,
                                               NEPS=1, NCEN=1, KDIRS=1)))
     for name, kw in cfgs:
